@@ -21,9 +21,14 @@ MS = "bempp_cl/api/space/maxwell_spaces.py"
 FN = "_compute_rwg0_space_data"
 
 
-def _sentinel(alloc):
-    """Value every entry of a freshly allocated integer table holds."""
+def _sentinel(alloc, fn=None):
+    """Value every entry of a freshly allocated integer table holds (fn: the enclosing function, so that a local that
+    merely names a part of the allocation expression is read through)."""
     neg = False
+    if fn is not None:
+        from . import roles
+
+        alloc = roles.inline(alloc, roles.Defs(fn))
     n = alloc
     if isinstance(n, ast.UnaryOp) and isinstance(n.op, ast.USub):
         neg, n = True, n.operand
@@ -113,7 +118,7 @@ def analyse(fn):
     tables = {}
     for st in fn.body:
         if isinstance(st, ast.Assign) and isinstance(st.targets[0], ast.Name):
-            s = _sentinel(st.value)
+            s = _sentinel(st.value, fn)
             if s is not None:
                 tables[st.targets[0].id] = (s, st.lineno)
     memo = [t for t in tables if any(isinstance(n, ast.Subscript) and unparse(n).replace(" ", "") == "%s[%s]" % (t, E) for n in ast.walk(inner)) and t not in (l2g, mult)]
